@@ -369,6 +369,13 @@ func (l *breaker) markWordOptionUnused() {
 	l.isUnusedWord = true
 }
 
+// discardWordOption forgets the break option last returned by nextWordBreak, which
+// the shaped text cannot use: previousWordBreak must keep designating the last
+// option that was actually tried, since nextGraphemeBreak skips everything up to it.
+func (l *breaker) discardWordOption() {
+	l.unusedWordBreak = l.previousWordBreak
+}
+
 // nextGraphemeBreak returns the next grapheme cluster boundary break between
 // the previous and current word boundary, if any. If it returns false, there are no
 // more candidates between the previous and current word boundaries.
@@ -1057,6 +1064,7 @@ func (l *LineWrapper) wrapNextLine(config lineConfig) (done bool) {
 		switch result, candidateRun := l.processBreakOption(option, config); result {
 		case breakInvalid:
 			l.restore()
+			l.breaker.discardWordOption()
 			continue
 		case fits:
 			l.scratch.markCandidateBest(candidateRun)
